@@ -170,6 +170,7 @@ pub struct World {
     pub scan: Option<ScanCall>,
     pub modules: Vec<String>,
     pub mount: String,
+    pub kept_alive: Vec<V>,
     pub matcher_objs: HashSet<usize>,
     pub printer_objs: HashSet<usize>,
     pub wrote_in_call: bool,
@@ -200,6 +201,7 @@ impl World {
             scan: None,
             modules: vec![],
             mount,
+            kept_alive: vec![],
             matcher_objs: HashSet::new(),
             printer_objs: HashSet::new(),
             wrote_in_call: false,
@@ -536,6 +538,10 @@ impl Interp {
                                 return Ok(quote(&items[1]));
                             }
                             "with-mutex" => {
+                                if !self.w.modules.iter().any(|m| m == "(ice-9 threads)") {
+                                    // with-mutex is exported by (ice-9 threads); without the import it is unbound in Guile
+                                    return Err(EvalError::Unbound("with-mutex (the program does not import (ice-9 threads))".into()));
+                                }
                                 if items.len() < 2 {
                                     return Err(EvalError::Other("bad with-mutex".into()));
                                 }
@@ -675,6 +681,9 @@ impl Interp {
         }
         self.w.call_depth_user += 1;
         let tracked = self.w.in_thunk && self.w.call_depth_user == 2;
+        if tracked && !self.w.matcher_objs.contains(&id) && !self.w.printer_objs.contains(&id) {
+            self.w.kept_alive.push(f.clone());
+        }
         let before = self.w.wrote_in_call;
         if tracked {
             self.w.wrote_in_call = false;
@@ -1715,6 +1724,7 @@ mod tests {
     fn ev(src: &str) -> Result<String, EvalError> {
         let forms = read_all(src).unwrap();
         let mut it = Interp::new(vec![]);
+        it.w.modules.push("(ice-9 threads)".into());
         let mut last = V::Unspec;
         let env = Env::empty();
         for f in &forms {
